@@ -38,12 +38,25 @@ def check(ctx):
     # (b) histories
     tot = collections.Counter()
     kinds = collections.Counter()
+    proto = collections.Counter()
     for procs in (1, 4, 16):
         tr = os.path.join(ctx.work, "hist-p%d.ndjson" % procs)
         windows = 12 if thorough else 3
-        vlib.vdrive(ctx, ["rm", "hist", tr, windows, 8, 20, procs], timeout=1200, ok_codes=(0, 3), env={"VERIF_SEED": str(ctx.seed * 17 + procs)})
+        pt = os.path.join(ctx.work, "proto-p%d.ndjson" % procs)
+        vlib.vdrive(ctx, ["rm", "hist", tr, windows, 8, 20, procs], timeout=1200, ok_codes=(0, 3),
+                    env={"VERIF_SEED": str(ctx.seed * 17 + procs), "VERIF_RMTRACE": pt})
         res = vlib.validate(ctx, FAM, "CallHistoryTrace", "History.cfg", tr, name="val-hist-p%d" % procs, env=DEQUE, timeout=3000)
         judge(ctx, res, tr, "call histories (GOMAXPROCS=%d)" % procs)
+        # (c) the Run loop's protocol events of the same windows, replayed with the actions of RequestManager.tla
+        pev = collections.Counter(e["ev"] for e in vlib.read_ndjson(pt))
+        mx = max([e.get("id", 0) for e in vlib.read_ndjson(pt)] + [1])
+        res = vlib.validate(ctx, FAM, "RunLoopTrace", "RunLoop.cfg", pt, name="val-proto-p%d" % procs, env={"MAXID": str(mx)}, timeout=3000)
+        judge(ctx, res, pt, "Run loop protocol trace (GOMAXPROCS=%d)" % procs)
+        proto["mechanism_deviations_not_violations"] += sum(1 for v in res["viol"] if v["tag"] == "mech.C12")
+        for k in ("queued", "wake", "recv", "launch"):
+            if pev[k] == 0:
+                raise Inconclusive("vacuous: no %s protocol events" % k)
+        proto.update(pev)
         for e in vlib.read_ndjson(tr):
             tot[e["ev"]] += 1
             if e["ev"] == "Inv":
@@ -67,9 +80,9 @@ def check(ctx):
     ctx.samples.append(dict(kind="history (first events)", events=vlib.read_ndjson(os.path.join(ctx.work, "hist-p4.ndjson"), limit=8)))
     vlib.write_evidence(ctx, "model_checking", dict(
         states=ctx.states, transitions=ctx.transitions, traces_validated_against_impl=ctx.traces,
-        samples=ctx.samples, exhaustive=False, gate_schedule=gate, history_events=dict(tot), calls=dict(kinds),
+        samples=ctx.samples, exhaustive=False, gate_schedule=gate, history_events=dict(tot), calls=dict(kinds), run_loop_protocol_events=dict(proto),
         constants="RequestManager MC: 3 clients, Cap 1, 1 worker, 1 abort (thorough: 4 clients, Cap 2, 2 workers); liveness under WF",
         events_validated=ctx.events),
         ["invoke / return order comes from one shared atomic counter incremented by the calling goroutine immediately before the call and immediately after it returns (never wall-clock time)",
          "linearizability is decided by TLC on windows of 160 calls; statements inside a window are single-statement transactions (ExecuteSQL)",
-         "the protocol-level trace of the Run loop (hook H5 events) is not validated yet; the mechanism spec is bound to the code by the gate replay and by the histories"])
+         "the Run loop's protocol events (hook VerifRM: queued / wake / recv / requeue / launch) are replayed with the actions of RequestManager.tla (RunLoopTrace: unlogged sends, worker completion, delivery and launch-free turns placed deterministically); OneReply, ExactlyOnce, WorkerBound are invariants of that replay"])
